@@ -43,6 +43,9 @@ type Opts struct {
 	LocalAddr  netip.Addr
 	NoServe    bool
 	Limit      time.Duration // virtual watchdog (default 6h)
+	// ExtraListeners: number of additional listeners handed to Serve (connections
+	// can be injected through any of them with ConnectVia)
+	ExtraListeners int
 	// IDMayBeRejected: NewServer may legitimately refuse LocalID; the world then
 	// does not run and Outcome.IDRejected is set
 	IDMayBeRejected bool
@@ -83,6 +86,7 @@ type World struct {
 	O    Opts
 	Srv  *corebgp.Server
 	Lis  *memnet.Listener
+	Extra []*memnet.Listener // additional listeners (Opts.ExtraListeners)
 	Log  *Log
 	T0   time.Time
 	done chan struct{}
@@ -353,6 +357,9 @@ func Run(t *testing.T, o Opts, fn func(w *World)) (out Outcome) {
 		w.Srv = srv
 		if !o.NoListener {
 			w.Lis = memnet.NewListener(netip.AddrPortFrom(o.LocalAddr, 179))
+			for k := 0; k < o.ExtraListeners; k++ {
+				w.Extra = append(w.Extra, memnet.NewListener(netip.AddrPortFrom(o.LocalAddr, uint16(1179+k))))
+			}
 		}
 		current.Store(w)
 		// virtual watchdog
@@ -407,6 +414,9 @@ func (w *World) Serve() {
 	var ls []net.Listener
 	if w.Lis != nil {
 		ls = []net.Listener{w.Lis}
+		for _, l := range w.Extra {
+			ls = append(ls, l)
+		}
 	}
 	go func() {
 		w.Log.Add("api", "", -1, "Serve.call", "")
@@ -436,7 +446,18 @@ func (w *World) gate() func() {
 		s := w.serving
 		w.mu.Unlock()
 		if s && w.Lis.Gate() {
-			return w.Lis.Ungate
+			var gated []*memnet.Listener
+			for _, l := range w.Extra {
+				if l.Gate() {
+					gated = append(gated, l)
+				}
+			}
+			return func() {
+				w.Lis.Ungate()
+				for _, l := range gated {
+					l.Ungate()
+				}
+			}
 		}
 	}
 	return func() {}
@@ -597,13 +618,22 @@ func (w *World) Connect(src netip.Addr) *RConn {
 // ConnectTo opens an inbound connection from src to an explicit destination
 // address (what corebgp sees as the connection's local address).
 func (w *World) ConnectTo(src, dst netip.Addr) *RConn {
+	return w.ConnectVia(0, src, dst)
+}
+
+// ConnectVia is ConnectTo through listener k (0 = the main one, 1.. = Extra).
+func (w *World) ConnectVia(k int, src, dst netip.Addr) *RConn {
+	lis := w.Lis
+	if k > 0 && k <= len(w.Extra) {
+		lis = w.Extra[k-1]
+	}
 	p := w.newPair(netip.AddrPortFrom(dst, 179), netip.AddrPortFrom(src, w.ephemeral()))
 	rc := newRConn(w, p, "in", src)
 	w.mu.Lock()
 	w.conns = append(w.conns, rc)
 	w.mu.Unlock()
 	w.Log.Add("note", src.String(), rc.ID, "remote-connects", "dst="+dst.String())
-	if w.Lis == nil || !w.Lis.Inject(p.End(0)) {
+	if lis == nil || !lis.Inject(p.End(0)) {
 		rc.Refused = true
 	}
 	return rc
